@@ -308,6 +308,12 @@ func genSmallFile(r *hlib.Rng, class string) []byte {
 		nets = r.Intn(5)
 	}
 	lines := g.File(n, nets, class == "dupnet", r.Chance(1, 2))
+	// a key that certainly holds several values, two of them equal
+	hot := "+hot." + g.Zones[0] + ","
+	for _, ip := range []string{"192.0.2.1", "192.0.2.2", "192.0.2.1", "2001:db8::7"}[:2+r.Intn(3)] {
+		pos := r.Intn(len(lines) + 1)
+		lines = append(lines[:pos], append([]string{hot + ip}, lines[pos:]...)...)
+	}
 	if class == "dupnet" {
 		used := map[string]string{}
 		for i := 0; i < 3; i++ {
